@@ -20,7 +20,13 @@ pub enum HC {
         #[arg(short = 'l', long = "lv")]
         level: Option<u8>,
     },
-    Go,
+    Go {
+        // no doc comments on purpose: the option must still be listed
+        #[arg(long = "sp")]
+        speed: Option<u8>,
+        #[arg(short = 'q')]
+        quiet: bool,
+    },
     /// Sub things
     #[command(subcommand)]
     Sub(HS),
@@ -56,7 +62,7 @@ pub enum HG<'a> {
 
 const HELP_ALL: &str = "Commands:\r\n  led  Set led\r\n  go   \r\n  sub  Sub things\r\n";
 const HELP_LED: &str = "Set led\r\n\r\nUsage: led [OPTIONS] <ID>\r\n\r\nArguments:\r\n  <ID>  LED id\r\n\r\nOptions:\r\n  -l, --lv [LEVEL]  Level\r\n  -h, --help        Print help\r\n";
-const HELP_GO: &str = "Usage: go\r\n\r\nOptions:\r\n  -h, --help  Print help\r\n";
+const HELP_GO: &str = "Usage: go [OPTIONS]\r\n\r\nOptions:\r\n  --sp [SPEED]  \r\n  -q            \r\n  -h, --help    Print help\r\n";
 const HELP_SUB: &str = "Sub things\r\n\r\nUsage: sub <COMMAND>\r\n\r\nOptions:\r\n  -h, --help  Print help\r\n\r\nCommands:\r\n  ping  Ping it\r\n";
 const HELP_SUB_PING: &str = "Ping it\r\n\r\nUsage: sub ping\r\n\r\nOptions:\r\n  -h, --help  Print help\r\n";
 const UNKNOWN: &str = "error: unknown command\r\n";
